@@ -337,6 +337,7 @@ Section Programs.
     by rewrite /cpr_prog /= map_recipE quadE maskedE meansE linearZ.
   Qed.
 End Programs.
+Global Opaque lpr_prog lcpr_prog cpr_prog hyp_prog.
 
 (* ================================================================== Part 3 *)
 (* the oracle hypothesis on an environment:  (XX + alpha I) * Xinv = I *)
@@ -347,6 +348,10 @@ Definition rig_hyp (F : rcfType) (env : env_mx F) (d N S : nat) : Prop :=
 Definition bvec_mx (F : rcfType) d (l : seq bool) : 'rV[F]_d := \row_j (nth false l j)%:R.
 Definition bmat_mx (F : rcfType) m n (B : seq (seq bool)) : 'M[F]_(m, n) :=
   \matrix_(i, j) (nth false (nth [::] B i) j)%:R.
+
+(* ssreflect's nth and the standard library's List.nth (used by Model/Rigidity.v) agree *)
+Lemma nth_ListE T (x0 : T) (s : seq T) n : nth x0 s n = List.nth n s x0.
+Proof. by elim: s n => [|a s IH] [|n] //=. Qed.
 
 Section Theorems.
   Variable F : rcfType.
@@ -372,7 +377,7 @@ Section Theorems.
       & forall s, cpr env s ord0 = (qf (invmx (A env)) (maskrow (mk env) (xs env s)))^-1].
   Proof.
     move=> /hypAP AP; rewrite -(inv_is_invmx AP).
-    by split=> i; rewrite ?lprE ?lcprE ?cprE.
+    by split=> i; [rewrite lprE | rewrite lcprE | rewrite cprE].
   Qed.
 
   (* ---- strict positivity ---- *)
@@ -401,29 +406,29 @@ Section Theorems.
   (* ---- invariance under a common rescaling of all features ---- *)
   Definition rescaled (c : F) env env' : Prop :=
     [/\ e_Xtr env' N d = c *: e_Xtr env N d, e_Xte env' Nt d = c *: e_Xte env Nt d,
-        e_Mtr env' S N = e_Mtr env S N, e_Mte env' St Nt = e_Mte env St Nt,
-        e_alpha env' = e_alpha env & e_mask env' d = e_mask env d].
+        e_Mtr env' S N = e_Mtr env S N, e_Mte env' St Nt = e_Mte env St Nt
+      & e_alpha env' = e_alpha env /\ e_mask env' d = e_mask env d].
 
   Theorem rig_scale_invariant (c : F) env env' :
     c != 0 -> rescaled c env env' -> rig_hyp env d N S -> rig_hyp env' d N S ->
     [/\ lpr env' = lpr env, lcpr env' = lcpr env & cpr env' = cpr env].
   Proof.
-    move=> c0 [Etr Ete EMtr EMte Ea Em] /hypAP AP /hypAP AP'.
+    move=> c0 [Etr Ete EMtr EMte [Ea Em]] /hypAP AP /hypAP AP'.
     set sg := `|c|^-1 * c.
     have sgsg : sg * sg = 1.
-      rewrite /sg mulrACA -invfM -normrM -expr2 real_normK ?num_real //.
+      rewrite /sg mulrACA -invfM -normrM ger0_norm -?expr2 ?sqr_ge0 //.
       by rewrite mulVf // expf_neq0.
-    have isfE' : isf (e_Xtr env' N d) * c = sg * isf (e_Xtr env N d).
-      by rewrite Etr isfZ /sg mulrAC.
+    have isfE' : isf (c *: e_Xtr env N d) * c = sg * isf (e_Xtr env N d).
+      by rewrite isfZ /sg mulrAC.
     have XsE : Xstruc d N S env' = sg *: Xstruc d N S env.
       by rewrite /Xstruc Etr EMtr -scalemxAr !scalerA isfE'.
     have AE : A env' = A env by rewrite XsE Ea regZ.
     have PE : e_Xinv env' d = e_Xinv env d.
       by apply: (inv_unique AP); rewrite -AE.
     have xeE i : xe env' i = sg *: xe env i.
-      by rewrite /x_env Ete linearZ /= !scalerA isfE'.
+      by rewrite /x_env Ete Etr linearZ /= !scalerA isfE'.
     have xsE s : xs env' s = sg *: xs env s.
-      by rewrite /x_struc Ete EMte -scalemxAr linearZ /= !scalerA isfE'.
+      by rewrite /x_struc Ete EMte Etr -scalemxAr linearZ /= !scalerA isfE'.
     split; apply/colP => i.
     - by rewrite !lprE PE xeE qfZ sgsg mul1r.
     - by rewrite !lcprE PE Em xeE maskrowZ qfZ sgsg mul1r.
@@ -454,8 +459,8 @@ Section Theorems.
     have key (z : 'rV[F]_d) : z != 0 ->
         (qf (e_Xinv env d) z)^-1 <= (qf (e_Xinv env' d) z)^-1.
       move=> z0; rewrite lef_pinv ?posrE; first exact: qf_mono a0 ab AP AP' z.
-      - exact: reginv_pos b0 AP' _ z0.
       - exact: reginv_pos a0 AP _ z0.
+      - exact: reginv_pos b0 AP' _ z0.
     split=> i z0.
     - by rewrite !lprE xeE; apply: key; apply: scaled_neq0.
     - rewrite !lcprE xeE Em; apply: key.
@@ -467,8 +472,8 @@ Section Theorems.
   (* ---- one component covering all features: LCPR = LPR ---- *)
   Lemma bvec_single : bvec_mx F d (comp_mask [:: d] 0) = const_mx 1.
   Proof.
-    apply/rowP => j; rewrite !mxE comp_mask_single //.
-    by apply/ltP; exact: ltn_ord.
+    apply/rowP => j; rewrite !mxE nth_ListE comp_mask_single //.
+    by apply/ssrnat.ltP; exact: ltn_ord.
   Qed.
 
   Theorem rig_lcpr_single_component env :
@@ -477,3 +482,85 @@ Section Theorems.
     by move=> Em; apply/colP => i; rewrite lcprE lprE Em bvec_single maskrow_ones.
   Qed.
 End Theorems.
+
+(* ================================================================== membership matrices *)
+Section Membership.
+  Variable F : rcfType.
+
+  Lemma sum_nth_ntrue n (r : seq bool) :
+    size r = n -> \sum_(a < n) (nth false r a)%:R = (ntrue r)%:R :> F.
+  Proof.
+    move=> <-; rewrite -(big_mkord xpredT (fun a => (nth false r a)%:R)).
+    rewrite -(big_nth false xpredT (fun b : bool => b%:R)).
+    elim: r => [|b r IH]; first by rewrite big_nil.
+    have -> : ntrue (b :: r) = (b + ntrue r)%N by case: b.
+    by rewrite big_cons IH natrD.
+  Qed.
+
+  Lemma eqb_eqn (a b : nat) : Nat.eqb a b = (a == b).
+  Proof. by apply/idP/eqP => /PeanoNat.Nat.eqb_eq. Qed.
+
+  Variable lens : seq nat.
+  Local Notation S := (size lens).
+  Local Notation N := (lsum lens).
+
+  (* the 0/1 membership matrix handed to the programs, over F *)
+  Definition member_mx : 'M[F]_(S, N) := bmat_mx F S N (member_rows lens).
+  (* environment a belongs to structure s *)
+  Definition mem_of (s : 'I_S) (a : 'I_N) : bool :=
+    List.nth a (List.nth s (member_rows lens) [::]) false.
+
+  Lemma member_mxE s a : member_mx s a = (mem_of s a)%:R.
+  Proof. by rewrite mxE !nth_ListE. Qed.
+
+  Lemma member_rowsum (s : 'I_S) : \sum_a member_mx s a = (List.nth s lens 0%N)%:R.
+  Proof.
+    rewrite (eq_bigr (fun a : 'I_N => (nth false (nth [::] (member_rows lens) s) a)%:R));
+      last by move=> a _; rewrite mxE.
+    have sS : (s < length lens)%coq_nat by apply/ssrnat.ltP; exact: ltn_ord.
+    rewrite sum_nth_ntrue nth_ListE ?member_rows_count //.
+    exact: member_row_length.
+  Qed.
+
+  (* row s of (avg member_mx * X) is the mean of the rows of X that belong to structure s *)
+  Theorem rig_struct_means d (X : 'M[F]_(N, d)) (s : 'I_S) (f : 'I_d) :
+    (avg member_mx *m X) s f
+    = (\sum_(a | mem_of s a) X a f) / (List.nth s lens 0%N)%:R.
+  Proof.
+    rewrite mxE [RHS]mulrC mulr_sumr [RHS]big_mkcond /=; apply: eq_bigr => a _.
+    rewrite mxE member_rowsum member_mxE.
+    by case: (mem_of s a); rewrite ?mulr1 ?mulr0 ?mul0r.
+  Qed.
+
+  (* a structure with one environment: its averaged row is that environment's row *)
+  Lemma avg_single d (X : 'M[F]_(N, d)) (s : 'I_S) (a : 'I_N) :
+    List.nth s lens 0%N = 1%N -> (a : nat) = lsum (List.firstn s lens) ->
+    row s (avg member_mx *m X) = row a X.
+  Proof.
+    move=> l1 aE; apply/rowP => f; rewrite !mxE.
+    have sS : (s < length lens)%coq_nat by apply/ssrnat.ltP; exact: ltn_ord.
+    rewrite (bigD1 a) //= big1 ?addr0 => [|b ba].
+    - rewrite mxE member_rowsum l1 invr1 mul1r member_mxE /mem_of.
+      rewrite member_rows_single // -?aE ?eqb_eqn ?eqxx ?mul1r //.
+      by apply/ssrnat.ltP; exact: ltn_ord.
+    - rewrite mxE member_mxE /mem_of member_rows_single // -?aE ?eqb_eqn.
+      + by rewrite (negbTE ba) mulr0 mul0r.
+      + by apply/ssrnat.ltP; exact: ltn_ord.
+  Qed.
+End Membership.
+
+Section SingleEnvironment.
+  Variable F : rcfType.
+  Variables (d N : nat) (lte : seq nat).
+  Local Notation St := (size lte).
+  Local Notation Nt := (lsum lte).
+
+  Theorem rig_cpr_single_environment (env : env_mx F) (s : 'I_St) (a : 'I_Nt) :
+    e_Mte env St Nt = member_mx F lte ->
+    List.nth s lte 0%N = 1%N -> (a : nat) = lsum (List.firstn s lte) ->
+    (eval_mx env (cpr_prog d N Nt St)) s ord0 = (eval_mx env (lcpr_prog d N Nt)) a ord0.
+  Proof.
+    move=> EM l1 aE; rewrite cprE lcprE /x_struc /x_env EM.
+    by rewrite (avg_single _ l1 aE).
+  Qed.
+End SingleEnvironment.
